@@ -664,3 +664,248 @@ func init() {
 		},
 	})
 }
+
+func init() {
+	register(&Rule{
+		ID: "C03-b", Template: "loop completeness (a per-block table has an entry for every block)",
+		Doc: "The table index lists the first key of every block: where a slice is made with one entry per element of a collection (make(T, len(x)) — the table index in ingest.IndexTable, block lists in the inserter) and is filled at the loop index while that collection is walked, no iteration reaches the loop's back edge without passing a store into the slice at that index. A `continue` in front of the store (a block that is 'already indexed', 'unchanged', 'cached') leaves an empty entry behind: the block-window search of diff and merge then compares against an empty key. Scope: pkg/ingest, pkg/objects, pkg/api/utils, pkg/sorter, pkg/merge, pkg/doctor.",
+		Min: 1,
+		Run: func(p *Program, r *RuleResult) error {
+			if _, err := p.SSAFunc("pkg/ingest.IndexTable"); err != nil {
+				return err
+			}
+			fns := p.FuncsInPkg("pkg/ingest", "pkg/objects", "pkg/api/utils", "pkg/sorter", "pkg/merge", "pkg/doctor")
+			r.Analysed = len(fns)
+			for _, fn := range fns {
+				type fill struct {
+					mk  *ssa.MakeSlice
+					hdr *ssa.BasicBlock
+				}
+				stores := map[fill][]ssa.Instruction{}
+				var order []fill
+				for _, b := range fn.Blocks {
+					for _, in := range b.Instrs {
+						st, ok := in.(*ssa.Store)
+						if !ok {
+							continue
+						}
+						ia, ok := st.Addr.(*ssa.IndexAddr)
+						if !ok {
+							continue
+						}
+						mk, ok := ia.X.(*ssa.MakeSlice)
+						if !ok || lenArgOf(mk.Len) == nil {
+							continue
+						}
+						phi, ok := ia.Index.(*ssa.Phi)
+						if !ok {
+							// range loops: the index is φ+1
+							if bo, isBo := ia.Index.(*ssa.BinOp); isBo && bo.Op == token.ADD {
+								phi, ok = bo.X.(*ssa.Phi)
+							}
+						}
+						if !ok {
+							continue
+						}
+						hdr := phi.Block()
+						if !loopBody(hdr)[b] || enclosingLoop(b) != hdr {
+							continue
+						}
+						f := fill{mk, hdr}
+						if stores[f] == nil {
+							order = append(order, f)
+						}
+						stores[f] = append(stores[f], st)
+					}
+				}
+				for k, f := range order {
+					// a result table is handed on as a whole once the loop is done (argument, return
+					// value, field); per-element state that lives only inside the loop (the sorter's
+					// per-chunk read-ahead) is something else
+					handedOn := false
+					body0 := loopBody(f.hdr)
+					for _, ref := range *f.mk.Referrers() {
+						if body0[ref.Block()] {
+							continue
+						}
+						switch x := ref.(type) {
+						case *ssa.Call:
+							if _, isB := x.Call.Value.(*ssa.Builtin); !isB {
+								handedOn = true
+							}
+						case *ssa.Return, *ssa.MakeInterface, *ssa.Send:
+							handedOn = true
+						case *ssa.Store:
+							if x.Val == ssa.Value(f.mk) {
+								handedOn = true
+							}
+						}
+					}
+					if !handedOn {
+						continue
+					}
+					key := fmt.Sprintf("%s|per-element-table#%d", funcName(fn), k)
+					what := "every iteration that goes on to the next element has written this element's entry"
+					block := map[ssa.Instruction]bool{}
+					for _, s := range stores[f] {
+						block[s] = true
+					}
+					body := loopBody(f.hdr)
+					cut := loopExitEdges(f.hdr)
+					bad := ""
+					if len(f.hdr.Instrs) > 0 {
+						for _, pr := range f.hdr.Preds {
+							if !body[pr] || len(pr.Instrs) == 0 {
+								continue
+							}
+							if path, reach := reachAfter(fn, f.hdr.Instrs[0], pr.Instrs[len(pr.Instrs)-1], cut, block); reach {
+								bad = fmtPath("an iteration reaches the loop's back edge without storing its entry", path)
+							}
+						}
+					}
+					if bad != "" {
+						r.bad(key, p.Rel(f.mk.Pos()), what, bad)
+					} else {
+						r.ok(key, p.Rel(f.mk.Pos()), what)
+					}
+				}
+			}
+			return nil
+		},
+	})
+}
+
+func init() {
+	register(&Rule{
+		ID: "C18-d", Template: "T10 agreement (a delegating Read hands on the count it was given)",
+		Doc: "A reader may return its last bytes together with io.EOF. In pkg/encoding/..., pkg/objects, pkg/api/... and pkg/misc every method Read([]byte) (int, error) that delegates to an underlying Read returns, together with that call's error, the count that call reported — never a constant 0. A wrapper that answers (0, err) when err != nil discards the bytes delivered with the end-of-stream condition: every decoder above it (they all use io.ReadFull correctly) then sees a truncated object for data+EOF delivery, and only for that.",
+		Min: 1,
+		Run: func(p *Program, r *RuleResult) error {
+			var fns []*ssa.Function
+			for _, fn := range p.ProdFuncs() {
+				pk := fnPkgPath(fn)
+				if !(hasPrefix(pk, modPath+"/pkg/encoding") || pk == modPath+"/pkg/objects" || hasPrefix(pk, modPath+"/pkg/api") || pk == modPath+"/pkg/misc") {
+					continue
+				}
+				if fn.Name() != "Read" || fn.Signature.Recv() == nil || fn.Signature.Params().Len() != 1 || fn.Signature.Results().Len() != 2 {
+					continue
+				}
+				fns = append(fns, fn)
+			}
+			r.Analysed = len(fns)
+			for _, fn := range fns {
+				eachCall(fn, func(c ssa.CallInstruction) {
+					call, ok := c.(*ssa.Call)
+					if !ok {
+						return
+					}
+					name := ""
+					if c.Common().IsInvoke() {
+						name = c.Common().Method.Name()
+					} else if f := calleeFunc(c); f != nil {
+						name = f.Name()
+					}
+					sig := c.Common().Signature()
+					if name != "Read" || sig.Params().Len() != 1 || sig.Results().Len() != 2 || !isErrorType(sig.Results().At(1).Type()) {
+						return
+					}
+					errVals := errValuesOfCall(call)
+					key := callKey(fn, c) + "|count"
+					what := "the count reported by the underlying Read is returned with its error"
+					bad := ""
+					for _, ret := range returnsOf(fn) {
+						if len(ret.Results) != 2 {
+							continue
+						}
+						ev := retVal(ret, 1)
+						if ev == nil || !errVals[ev] {
+							continue
+						}
+						if k, isC := constInt(retVal(ret, 0)); isC && k == 0 {
+							if _, reach := reachAfter(fn, call, ret, nil, nil); reach {
+								bad = "the error of the underlying Read is returned with a constant count of 0 at " + p.Rel(ret.Pos()) + ": bytes delivered together with io.EOF are thrown away"
+							}
+						}
+					}
+					if bad != "" {
+						r.bad(key, p.Rel(c.Pos()), what, bad)
+					} else {
+						r.ok(key, p.Rel(c.Pos()), what)
+					}
+				})
+			}
+			return nil
+		},
+	})
+
+	register(&Rule{
+		ID: "C09-k", Template: "loop completeness (every shallow commit is recorded)",
+		Doc: "A push never carries history whose tables the sender lacks: client.NewShallowCommitError is the only guard in front of a push session (C09-c). In its loop over the commits to send, once objects.TableExist has answered 'no' for a commit, no path reaches the next iteration or the function's return without recording the commit in the error being built (a map update on a field of the ShallowCommitError) — a `continue` or early `return nil` on the way (no remote to suggest, lookup failed) lets the push go ahead, the receiver checks parents only, and the remote ref ends up with ancestors that have no table.",
+		Min: 1,
+		Run: func(p *Program, r *RuleResult) error {
+			fn, err := p.SSAFunc("pkg/api/client.NewShallowCommitError")
+			if err != nil {
+				return err
+			}
+			te, err := p.MustFuncs("pkg/objects.TableExist")
+			if err != nil {
+				return err
+			}
+			r.Analysed = 1
+			block := map[ssa.Instruction]bool{}
+			for _, b := range fn.Blocks {
+				for _, in := range b.Instrs {
+					if mu, ok := in.(*ssa.MapUpdate); ok {
+						if u, ok := mu.Map.(*ssa.UnOp); ok && u.Op == token.MUL {
+							if _, ok := u.X.(*ssa.FieldAddr); ok {
+								block[in] = true
+							}
+						}
+					}
+				}
+			}
+			for _, c := range callsTo(fn, te) {
+				call, ok := c.(*ssa.Call)
+				if !ok {
+					continue
+				}
+				key := callKey(fn, c) + "|recorded"
+				what := "a commit whose table is missing is recorded before the loop moves on"
+				absent := boolEdges(fn, forward([]ssa.Value{call}, fwdOpts{noBinOp: true}), false)
+				if len(absent) == 0 {
+					r.bad(key, p.Rel(c.Pos()), what, "the answer of TableExist is not branched on")
+					continue
+				}
+				bad := ""
+				hdr := enclosingLoop(call.Block())
+				for _, e := range absent {
+					start := e.from.Succs[e.succ]
+					if len(start.Instrs) == 0 {
+						continue
+					}
+					var targets []ssa.Instruction
+					for _, ret := range returnsOf(fn) {
+						targets = append(targets, ret)
+					}
+					if hdr != nil && len(hdr.Instrs) > 0 {
+						targets = append(targets, hdr.Instrs[0])
+					}
+					if block[start.Instrs[0]] {
+						continue
+					}
+					for _, t := range targets {
+						if path, reach := reachAfter(fn, start.Instrs[0], t, nil, block); reach {
+							bad = fmtPath("after TableExist answered 'no' the function goes on to "+p.Rel(t.Pos())+" without recording the commit", path)
+						}
+					}
+				}
+				if bad != "" {
+					r.bad(key, p.Rel(c.Pos()), what, bad)
+				} else {
+					r.ok(key, p.Rel(c.Pos()), what)
+				}
+			}
+			return nil
+		},
+	})
+}
